@@ -14,6 +14,7 @@ import (
 	"path/filepath"
 	"regexp"
 	"runtime"
+	"sort"
 	"strings"
 	"time"
 
@@ -251,6 +252,7 @@ var diagLineRE = regexp.MustCompile(`(?m)\.go:\d+:\d+: captLocal: `)
 var panicRE = regexp.MustCompile(`(?m)^panic: |^goroutine \d+ \[`)
 
 func faultMatrix(meta *common.Meta, tier string, outDir string) int {
+	t0 := time.Now()
 	base := filepath.Join(outDir, "fm")
 	os.RemoveAll(base)
 	defer os.RemoveAll(base)
@@ -475,7 +477,23 @@ Definition cases : list (cli_config * cli_outcome) := [
 		"import-raw-and-rune-literals": {"a.go": "package b\n\nimport (\n\t`fmt`\n\t'x'\n\t\"\"\n)\n\nfunc F(IN int) { fmt.Println(IN) }\n"},
 		"undefined-names":              {"a.go": "package b\n\nfunc F(IN int) int { x := undefinedFn(IN); return x.y[0] }\n\nfunc H(s string) bool { return len(s) == 0 }\n"},
 	}
-	for name, files := range broken {
+	type bjob struct {
+		name  string
+		files map[string]string
+		exe   string
+		args  []string
+		out   string
+		code  int
+		err   error
+	}
+	var bjobs []*bjob
+	var bnames []string
+	for name := range broken {
+		bnames = append(bnames, name)
+	}
+	sort.Strings(bnames)
+	for _, name := range bnames {
+		files := broken[name]
 		dir := filepath.Join(base, "broken", name)
 		for fn, src := range files {
 			common.WriteFile(filepath.Join(dir, fn), src)
@@ -493,7 +511,28 @@ Definition cases : list (cli_config * cli_outcome) := [
 			} else {
 				args = []string{pat}
 			}
-			out, code, err := common.Run(180*time.Second, base, common.GoEnv(), filepath.Join(bin, exe), args...)
+			bjobs = append(bjobs, &bjob{name: name, files: files, exe: exe, args: args})
+		}
+	}
+	{
+		sem := make(chan struct{}, 6)
+		done := make(chan struct{})
+		for _, j := range bjobs {
+			j := j
+			go func() {
+				sem <- struct{}{}
+				j.out, j.code, j.err = common.Run(180*time.Second, base, common.GoEnv(), filepath.Join(bin, j.exe), j.args...)
+				<-sem
+				done <- struct{}{}
+			}()
+		}
+		for range bjobs {
+			<-done
+		}
+	}
+	for _, j := range bjobs {
+		{
+			name, files, exe, args, out, code, err := j.name, j.files, j.exe, j.args, j.out, j.code, j.err
 			runs++
 			if err != nil {
 				meta.Fail("C19/"+exe+"/hang-on-broken-package:"+name, err.Error(), args)
@@ -504,11 +543,20 @@ Definition cases : list (cli_config * cli_outcome) := [
 			}
 		}
 	}
-	runs += targetStage(meta, tier, base, bin, outDir)
-	runs += ruleFaultStage(meta, tier, base, rdir, bin)
-	runs += profileStage(meta, base, bin)
-	runs += crashStage(meta, tier, base, rdir, bin, outDir)
-	runs += dispatchStage(meta, tier, base, bin, outDir, common.NewRand(1, "c19-dispatch"))
+	stageSeconds := map[string]float64{"fault matrix, sub-commands, broken packages": time.Since(t0).Seconds()}
+	timed := func(name string, f func() int) {
+		t := time.Now()
+		runs += f()
+		stageSeconds[name] = time.Since(t).Seconds()
+	}
+	timed("targets", func() int { return targetStage(meta, tier, base, bin, outDir) })
+	timed("rule-file faults", func() int { return ruleFaultStage(meta, tier, base, rdir, bin) })
+	timed("profiles", func() int { return profileStage(meta, base, bin) })
+	timed("crashing checker", func() int { return crashStage(meta, tier, base, rdir, bin, outDir) })
+	timed("dispatcher", func() int {
+		return dispatchStage(meta, tier, base, bin, outDir, common.NewRand(1, "c19-dispatch"))
+	})
+	meta.Distribution["stage_seconds"] = stageSeconds
 	meta.Distribution["binary_runs"] = runs
 	return runs
 }
